@@ -360,10 +360,18 @@ class NumpyFloatToFixConverter(object):
         # Saturate the values
         vals = np.clip(vals, self.min_value, self.max_value)
 
+        # The largest value of a 64-bit format is not representable as a float
+        # (it rounds up to the next power of two), so elements saturated at
+        # the top of the range would overflow in the cast below: note which
+        # they are and set them explicitly.
+        saturated = vals >= self.max_value
+
         # **NOTE** for some reason just casting resulted in shape
         # being zeroed on some indeterminate selection of OSes,
         # architectures, Python and Numpy versions"
-        return np.array(vals, copy=True, dtype=self.dtype)
+        with np.errstate(invalid="ignore"):
+            result = np.array(vals, copy=True, dtype=self.dtype)
+        return np.where(saturated, self.dtype(self.max_value), result)
 
 
 class NumpyFixToFloatConverter(object):
